@@ -97,7 +97,7 @@ def space_b_block(clsid, ents, quick, restricted_log=None):
 
 
 # incl. payloads that make class+id+length+payload an exact multiple of 256 bytes (252, 508, ...)
-EXTREME_LENGTHS = (251, 252, 253, 255, 256, 508, 764, 4092, 4095, 4096, 32764, 32767, 32768, 65531, 65532, 65534, 65535)
+EXTREME_LENGTHS = (251, 252, 253, 255, 256, 257, 508, 511, 512, 513, 764, 768, 1024, 4092, 4095, 4096, 4097, 32764, 32767, 32768, 65280, 65531, 65532, 65534, 65535)
 EXTREME_IDS = (b"\x05\x01", b"\x01\x35", b"\x0a\x04", b"\x00\x00", b"\x21\x04")  # fixed, counted, var-by-size, unknown, LOG-STRING
 
 
@@ -106,3 +106,4 @@ def space_c():
         for n in EXTREME_LENGTHS:
             for mode in (GET, SET):
                 yield cid, bytes(n), mode, 1
+                yield cid, bytes((7 * i + 3) % 251 for i in range(n)), mode, 1  # content whose sums do not vanish
